@@ -138,7 +138,16 @@ pub fn apply_real(op: &Op, regs: &mut [Object; REGISTERS], maps: &mut [Option<Co
                 if let Some(s) = set { *slot = s.build(); }
                 Res::Got { value, called }
             }
-            Op::CloneTo { r, dst } => { let c = regs[*r].clone(); regs[*dst] = c; maps[*dst] = kept.clone(); Res::Unit }
+            Op::CloneTo { r, dst, from } => {
+                if *from && r != dst {
+                    // `Clone::clone_from` onto an object with its own history (and its own hash builder)
+                    let src = std::mem::take(&mut regs[*r]);
+                    regs[*dst].clone_from(&src);
+                    regs[*r] = src;
+                } else { let c = regs[*r].clone(); regs[*dst] = c; }
+                maps[*dst] = kept.clone();
+                Res::Unit
+            }
             Op::IntoIterRebuild { r } => { let o = std::mem::take(&mut regs[*r]); regs[*r] = o.into_iter().collect::<Object>(); Res::Unit }
             Op::Fresh { r } => { regs[*r] = if *r % 2 == 0 { Object::new() } else { Object::default() }; Res::Unit }
         }
@@ -207,7 +216,7 @@ pub fn apply_model(op: &Op, ms: &mut [M; REGISTERS]) -> Exp {
             if let Some(s) = set { ms[*r][p].1 = s.build(); }
             Exp::Got { value, called }
         }
-        Op::CloneTo { r, dst } => { let c = ms[*r].clone(); ms[*dst] = c; Exp::Unit }
+        Op::CloneTo { r, dst, .. } => { let c = ms[*r].clone(); ms[*dst] = c; Exp::Unit }
         Op::IntoIterRebuild { .. } => Exp::Unit,
         Op::Fresh { r } => { ms[*r].clear(); Exp::Unit }
     }
